@@ -47,6 +47,11 @@ impl Resp {
             body: format!("<Error><Code>{}</Code></Error>", status).into_bytes(),
         }
     }
+    /// Not an HTTP response at all: the bytes are written to the socket as they are (status 999 is
+    /// the marker the serve loop looks for).  The client sees a transport-level failure.
+    pub fn broken_transport() -> Self {
+        Resp { status: 999, headers: vec![], body: b"\x00\x01garbage that is not HTTP\r\n\r\n".to_vec() }
+    }
     pub fn xml(body: String) -> Self {
         Resp {
             status: 200,
@@ -177,6 +182,14 @@ impl Sim {
                         Resp::status(404)
                     }
                 };
+                if resp.status == 999 {
+                    use std::io::Write;
+                    let mut w = rq.into_writer();
+                    let _ = w.write_all(&resp.body);
+                    let _ = w.flush();
+                    drop(w);
+                    continue;
+                }
                 let mut r = tiny_http::Response::from_data(resp.body).with_status_code(resp.status);
                 for (k, v) in resp.headers {
                     if let Ok(h) = tiny_http::Header::from_bytes(k.as_bytes(), v.as_bytes()) {
